@@ -127,6 +127,8 @@ package gen
 //@   ensures[C06] p.max == old(p.max) && p.meta == old(p.meta) && p.w == old(p.w)
 //@   ensures[C02] snkPos >= old(snkPos) && snkKept(old(snkPos))
 //@   ensures[C06] old(chainInv(allocbound())) ==> chainInv(allocbound())
+// C12: the pages of the next row group are accumulated in column objects built after this one was written
+//@   ensures[C12] err == nil && old(p.len) != 0 ==> (forall k in 0..#p.fields: freshsince(payload(p.fields[k]))) && p.child == nil
 //@ loop (*ParquetWriter).Write#1
 //@   modifies p.meta, HA(p.meta.rowGroups), heap("sch.ColumnMetaData"), heap("map[string]sch.ColumnChunk"), wfault, snk, ser, relArr
 //@   invariant metaOK(p.meta) && (wfault ==> old(wfault)) && p.meta.rowGroups == old(p.meta.rowGroups) && 0 <= iter
@@ -170,6 +172,9 @@ package gen
 //@   modifies nothing
 //@   ensures freshsince(res)
 //@   ensures[C06] #res >= 1
+// C12: every column object of a new row group is newly built (its statistics accumulator starts
+// from the constructor's state: nothing counted, no value seen)
+//@   ensures[C12] forall k in 0..#res: freshsince(payload(res[k]))
 
 //@ func fieldCompression
 //@   modifies nothing
